@@ -221,7 +221,7 @@ def run(ck):
         "evaluations": len(reqs), "distinct_nontrivial": len({(r[0], r[1], r[2]) for r in reqs if r[2] > 0}),
         "rule": "requests = every (algorithm variant, iterator category, N in 0..64) x %d seeded memories; distinct = "
                 "(variant, category, N) classes with N >= 1 (each is a different template instantiation chain)" % reps,
-        "exhaustive": "sizes 0..64 x %d variants x 2 iterator categories (contents sampled)" % len(SITE),
+        "exhaustive": False, "exhaustive_over": "sizes 0..64 x %d variants x 2 iterator categories (contents sampled)" % len(SITE),
         "compared_with_std": n_std, "requests_with_overlapping_ranges": n_overlap,
         "disagreements": disagreements, "per_algorithm": hist,
         "traces_validated_against_impl": len(reqs),
